@@ -37,13 +37,13 @@ CLAIMED = {
  "C20": ("CFG post-dominance/ordering and per-iteration-cell analysis of the executor, difference-bound analysis of the ranges, symbolic execution of one loop iteration with polynomial identities for the partition (G7, G5, G3, I1, I2, S2)",
          "Static decision of the synchronisation clauses ONLY: Execute returns only after every invocation returned (Add before each spawn, Done after work on every path of the child, Wait on every path to return), each child calls work exactly once with the two values computed for its own iteration, one spawn per iteration; callers size result channels by the value they pass as the worker limit. NOT decided: the range arithmetic (disjoint contiguous cover of [0,n), at most min(n,m) invocations, no empty/out-of-bounds range) - it quantifies over integer values of n and m and needs enumeration or a solver, both outside this technique family; a remainder-distribution bug is not detected.",
          "4 C20, 3.6 G7"),
- "C03": ("Fiat-Shamir schedule extraction vs frozen spec table, layout extraction, commutativity of fan-in combiners, write-effect immutability, constant folding of the domain quotient for every index (F1,F2,F4,F7,D5,G2-G4,W2,W3,Q5)",
+ "C03": ("Fiat-Shamir schedule extraction vs frozen spec table, layout extraction, commutativity of fan-in combiners, write-effect immutability, constant folding of the domain quotient for every index, completeness of the passes over the domain (F1,F2,F4,F7,D5,G2-G4,W2,W3,Q5,Q7)",
          "Static decision that labels, absorb order and loop structure equal the specification for prover and verifier, that openings are absorbed with their own index, that canonical encodings are what is hashed and serialised in the order D|L|R|a, that every merge in goroutine-completion order uses a commutative-associative combiner and takes each worker result exactly once, and that no call writes state a later call reads. Byte-for-byte equality with an independent implementation on concrete inputs and independence from the MSM window choice (group-law correctness) are not decided.",
          "4 C03, 3.2, 3.3 D5, 3.6 G4"),
  "C09": ("aligned-pair dataflow at call sites, dispatch/constant evaluation, chunk-coverage enumeration over constant-trip loops and the split branches, guarded-decrement dominance, length-guard dominance, loop-progress idiom, goroutine discipline, write effects (M1-M5, LG, T1, G1-G5, W1)",
          "Static decision, for every size, task count and schedule, that points/scalars stay paired through all wrappers/splits/chunks, flags reach the inner routine, every selectable width has an implementation with consistent constants, every chunk is processed and consumed exactly once (chunk j via channel j), v-1 indexes are guarded, length mismatch errors before slicing, the sizing loop makes progress, goroutines are joined and channels fit (so the call cannot block on its own channels). That bucket accumulation/reduction and digit recoding compute sum s_i P_i is not decided.",
          "4 C09, 3.4, 3.6"),
- "C01": ("schedule extraction vs spec, parallel-index agreement, shape-check dominance, worker-split idiom recognition, join/channel agreement, index-domain type inference incl. compacted positions, constant folding of the domain quotient for every index (F1,F2,F4,F6,S1,G2,G3,M6,Q5)",
+ "C01": ("schedule extraction vs spec, parallel-index agreement, shape-check dominance, worker-split idiom recognition, join/channel agreement, index-domain type inference incl. compacted positions, constant folding of the domain quotient for every index, completeness of the passes over the domain (F1,F2,F4,F6,S1,G2,G3,M6,Q5,Q7)",
          "Static decision, for every number of openings, evaluation-point pattern and CPU count, of the structural completeness clauses: prover and verifier replay the specified schedule; openings handled as aligned triples; every array indexed by an index of its own domain - in particular the inverse denominators by compacted position; the worker split is a ceil-division cover with clipped ranges and one receive per worker. The protocol algebra (that an honest proof satisfies the final equation) is not decided.",
          "4 C01, 3.2, 3.4 M6"),
  "C04": ("finite-outcome evaluation of the domain switch, initialiser/immutability of the bound, call/argument identity of the b-vector, verifier dominance rules, index/range rules on the IPA vector helpers, table write coverage, 81-ordering evaluation of Cmp, zero-skips confined to vanishing terms (D4,B1,W2,F5,F6,V1-V4,Z3,M7,O1)",
